@@ -23,7 +23,7 @@ def gen_items(rng, n, depth, budget, allow_raise=True):
         elif r < 0.80:
             items.append(["site", rng.choice(KINDS)])
         elif r < 0.86 and allow_import[0]:
-            items.append(["import", rng.choice(["blocked", "missing", "stdlib"])])
+            items.append(["import", rng.choice(["blocked", "missing", "stdlib", "broken", "raising", "good"])])
         elif r < 0.93 and allow_raise:
             items.append(["raise"])
         elif depth < 5:
